@@ -144,7 +144,7 @@ func runRE5(c *Ctx, s *Sink) {
 		n := 0
 		ast.Inspect(fd.Body, func(node ast.Node) bool {
 			call, ok := node.(*ast.CallExpr)
-			if !ok || !isCallTo(info, call, "pkg/obiformats.noContent") || len(call.Args) != 1 {
+			if !ok || len(call.Args) != 1 || !isNoContentMapper(c, callee(info, call)) {
 				return true
 			}
 			n++
@@ -193,4 +193,34 @@ func runRE5(c *Ctx, s *Sink) {
 			return true
 		})
 	})
+}
+
+// isNoContentMapper: f is a function of pkg/obiformats of type func(error) error that returns the package's
+// ErrNoContent for some error (whatever its name): the place where "nothing to read" is decided.
+func isNoContentMapper(c *Ctx, f *types.Func) bool {
+	if f == nil || f.Pkg() == nil || f.Pkg().Path() != modPath+"/pkg/obiformats" {
+		return false
+	}
+	sig, ok := f.Type().(*types.Signature)
+	if !ok || sig.Params().Len() != 1 || sig.Results().Len() != 1 || !isErrorType(sig.Params().At(0).Type()) || !isErrorType(sig.Results().At(0).Type()) {
+		return false
+	}
+	fd, p := c.DeclOf(f)
+	if fd == nil || fd.Body == nil {
+		return false
+	}
+	found := false
+	ast.Inspect(fd.Body, func(n ast.Node) bool {
+		if r, ok := n.(*ast.ReturnStmt); ok {
+			for _, e := range r.Results {
+				if id, ok := ast.Unparen(e).(*ast.Ident); ok {
+					if o := p.TypesInfo.ObjectOf(id); o != nil && o.Name() == "ErrNoContent" && o.Parent() == p.Types.Scope() {
+						found = true
+					}
+				}
+			}
+		}
+		return true
+	})
+	return found
 }
